@@ -190,7 +190,12 @@ impl ContextBag {
                     module.defined_in.as_ref().unwrap().as_os_str(),
                     &module.name,
                     &module.context_name,
-                    other_module.get().defined_in.as_ref().unwrap().as_os_str(),
+                    // the module of an implicit "default" context is not defined in any file
+                    other_module
+                        .get()
+                        .defined_in
+                        .as_ref()
+                        .map_or("laze (built-in)".as_ref(), |x| x.as_os_str()),
                 ))
             }
             indexmap::map::Entry::Vacant(entry) => {
